@@ -277,8 +277,21 @@ def run(prog, rep):
             res = run_scenario(f2, b, i, c, -1, EINPROGRESS, extra_facts=[("%s->blocking" % f2.param_names()[0], "!=", 0)], watch=[WAIT, "p_socket_check_connect_result"],
                                excuse_other_calls=False)
     okw = res is not None and WAIT in res["reached"] and "p_socket_check_connect_result" in res["reached"]
-    rep.ob("C09.6", fn, "inprogress", okw, "EINPROGRESS on a blocking socket: waits for writability, then reads SO_ERROR" if okw else
-           "EINPROGRESS on a blocking socket does not lead to the writability wait and the SO_ERROR check", fn.loc[0])
+    wmsg = "EINPROGRESS on a blocking socket does not lead to the writability wait and the SO_ERROR check"
+    # order: SO_ERROR is meaningful only once the socket became writable - every SO_ERROR check inside connect is reached with the
+    # wait already known to have succeeded (read earlier, SO_ERROR is still 0 and a later refusal is reported as success)
+    early = []
+
+    def on_chk(st, b, i, stmt):
+        for c in calls(stmt):
+            if c.get("callee") == "p_socket_check_connect_result":
+                if not any(fk.startswith(WAIT + "(") and ((fop == "==" and fv == 1) or (fop == "!=" and fv == 0)) for (fk, fop, fv) in st):
+                    early.append(line(c))
+        return [guards.transfer(st, stmt)]
+    Flow(fn, [guards.EMPTY], on_chk, lambda st, b, to, on: guards.edge_assume(st, b, on)).run()
+    if okw and early:
+        okw, wmsg = False, "line %d: SO_ERROR is read before the writability wait has succeeded: while the attempt is in progress it is still 0, so a connection refused or reset afterwards is reported as established" % early[0]
+    rep.ob("C09.6", fn, "inprogress", okw, "EINPROGRESS on a blocking socket: waits for writability, then reads SO_ERROR" if okw else wmsg, early[0] if early else fn.loc[0])
     cr = u.fn("p_socket_check_connect_result").inlined()
     gs = [c for (b, i, c) in cr.calls() if c.get("callee") == "getsockopt"]
     SO_ERROR, SOL_SOCKET = 4, 1
@@ -322,6 +335,9 @@ SELFTEST = [
          old="\t\t*address = p_socket_address_new_from_native (&sa, optlen);", new="\t\t*address = p_socket_address_new_from_native (&sa, sizeof (sa));"),
     dict(id="sigpipe-not-ignored", file="src/psocket.c", expect="C09.4",
          old="#  ifdef SIGPIPE\n\tsignal (SIGPIPE, SIG_IGN);\n#  endif", new=""),
+    dict(id="connect-so-error-before-wait", file="src/psocket.c", expect="C09.6",
+         old="\t\t\tif (p_socket_io_condition_wait (socket,\n\t\t\t\t\t\t\tP_SOCKET_IO_CONDITION_POLLOUT,\n\t\t\t\t\t\t\terror) == TRUE &&\n\t\t\t    p_socket_check_connect_result (socket, error) == TRUE)",
+         new="\t\t\tif (p_socket_check_connect_result (socket, error) == TRUE &&\n\t\t\t    p_socket_io_condition_wait (socket,\n\t\t\t\t\t\t\tP_SOCKET_IO_CONDITION_POLLOUT,\n\t\t\t\t\t\t\terror) == TRUE)"),
     dict(id="connected-before-check", file="src/psocket.c", expect="C09.6",
          old="\t\t\t\t\t\t\terror) == TRUE &&\n\t\t\t    p_socket_check_connect_result (socket, error) == TRUE) {", new="\t\t\t\t\t\t\terror) == TRUE) {"),
     dict(id="so-error-inverted", file="src/psocket.c", expect="C09.6",
